@@ -4,6 +4,6 @@ From JWT Require Import Base.GoSem Gen.SrcHeader Model.Decode Proofs.SrcHeader.
 Open Scope string_scope.
 
 Theorem C01_source_identifier_version : forall i : ident,
-  V2.identifier_Version (id_top_type i) (id_nats_version i) = id_version i.
+  V2.identifier_Version (id_nats_version i) (id_top_type i) = id_version i.
 Proof. exact src_id_version. Qed.
 Print Assumptions C01_source_identifier_version.
